@@ -78,7 +78,34 @@ def check_response(req, resp):
 # ------------------------------------------------------------------------------------------ request generator
 
 
+def thin_domain(rng):
+  """2-4 double parameters (sometimes an int / categorical / grid parameter as well) between two OPPOSING double-typed constraints
+  r <= w . x <= r + delta, delta a 3e-7 ... 3e-6 fraction of the range of w . x over the box (a mixture / budget equality given with a
+  tolerance): the inscribed radius stays above the library's 1e-8, but a million rejection trials find at most a point or two, so the one-hot
+  sampler falls back on hit-and-run padding (and switches to hit-and-run for the rest of the domain object's life)."""
+  comps = []
+  for _ in range(rng.randint(2, 4)):
+    lo = rng.choice([-3.5, 0.0, 1e-3, -100.0, 2.0])
+    comps.append(dict(var_type="double", elements=[lo, lo + rng.choice([0.5, 1.0, 7.25, 1000.0])]))
+  if rng.random() < 0.5:
+    extra = rng.choice([dict(var_type="int", elements=[-2, 3]), dict(var_type="categorical", elements=[1, 3, 5]), dict(var_type="quantized", elements=[-2.0, 0.125, 3.5])])
+    comps.insert(rng.randint(0, len(comps)), extra)
+  dbl = [i for i, c in enumerate(comps) if c["var_type"] == "double"]
+  w = [0.0] * len(comps)
+  for i in rng.sample(dbl, rng.randint(2, len(dbl))):
+    w[i] = rng.choice([-1.0, 1.0, 0.5, 2.0])
+  low = sum(min(w[i] * comps[i]["elements"][0], w[i] * comps[i]["elements"][1]) for i in dbl)
+  span = sum(abs(w[i]) * (comps[i]["elements"][1] - comps[i]["elements"][0]) for i in dbl)
+  r = low + span * rng.uniform(0.3, 0.7)
+  delta = span * rng.choice([3e-7, 1e-6, 3e-6])
+  cons = [dict(weights=list(w), rhs=r, var_type="double"), dict(weights=[-x for x in w], rhs=-(r + delta), var_type="double")]
+  rng.shuffle(cons)
+  return comps, cons, None
+
+
 def gen_domain(rng, discrete_only=False, constraints="maybe", priors="maybe", max_dim=4):
+  if constraints == "thin":
+    return thin_domain(rng)
   comps = []
   dim = rng.randint(1, max_dim)
   for _ in range(dim):
